@@ -10,7 +10,9 @@ NOTE_COMMON = ("Trusted: Lean 4.33 kernel + {propext, Classical.choice, Quot.sou
                "modelled with exact rationals, not verified. The correspondence also varies what surrounds the call: objects built from raw strings "
                "with white space, from files, handed back by moves / shuffles, or duplicated with copy / deepcopy / pickle; other public calls, "
                "setters and repeated calls made first on the same or on another live object; argument containers and numeric types; very long "
-               "inputs; and a sample of every check's cases (all rejection cases first) is re-evaluated in a child interpreter started with "
+               "inputs and lengths / counts at powers of two and round thousands; alternative public routes to the same quantity (backend method, "
+               "wrapper, silent=True, extra constructor arguments: '@route' tokens the model never sees); every answer of an object obtained from a "
+               "move / shuffle / copy is also compared with a fresh object's; and a sample of every check's cases (all rejection cases first) is re-evaluated in a child interpreter started with "
                "python -O and with RuntimeWarning raised as an error (not for C17-C19). ")
 CHECKS = {
  "C01": ("Lean theorems for every charge pattern: kappa = -1 iff delta-max = 0; otherwise kappa is delta/delta-max with ratios in (1,1.1) "
